@@ -16,6 +16,18 @@ def main(path):
         print('no native program recorded (%s)' % ('no failing input found' if not d.get('confirmed') else '?'))
         return 1
     wd = os.path.join(os.path.dirname(os.path.abspath(__file__)), '..', '.work', 'replaycmd')
+    if d.get('compile_only'):
+        import subprocess
+        from . import astload
+        os.makedirs(wd, exist_ok=True)
+        src = os.path.join(wd, 'probe.cpp')
+        open(src, 'w').write(d['cpp'])
+        r = subprocess.run(['g++', '-std=c++17', '-fsyntax-only', '-I' + astload.INC, src], capture_output=True, text=True)
+        print(d['cpp'])
+        print('g++ -fsyntax-only exit code', r.returncode)
+        print(r.stderr[-1500:])
+        print('violation %s on the current tree' % ('REPRODUCES' if r.returncode != 0 else 'does not reproduce'))
+        return 1 if r.returncode != 0 else 0
     r, err = R.build_and_run(d['cpp'], wd, 'replay')
     if err:
         print('build/run error:', err)
